@@ -61,7 +61,7 @@ def generate(rng, cfg, guards):
         ops.append(['state', rng.pick(['ineq', 'ineq', 'pix', 'mask', 'slice', 'and']), rng.randrange(8), rng.randrange(-2, 9) + 0.5, rng.randrange(1000)])
     while len(ops) < n:
         if rng.chance(0.25) and any(o[0] == 'req' for o in ops):
-            ops.append(['repeat', rng.randrange(8), rng.pick([None, 'A', 'A', 'B'])])
+            ops.append(['repeat', rng.randrange(8), rng.pick([None, 'A', 'A', 'B']), rng.pick(['same', 'src', 'src', 'what', 'nobroadcast'])])
             continue
         bounds = []
         for _ in range(3):
@@ -180,7 +180,15 @@ def execute(case, res):
                 if not reqs:
                     continue
                 base = reqs[op[1] % len(reqs)]
-                op = ['req'] + base[1:6] + [op[2], base[7]]
+                alter = op[3] if len(op) > 3 else 'same'
+                new = ['req'] + base[1:6] + [op[2], base[7]]
+                if alter == 'src':
+                    new[1] = base[1] + 1            # the same bounds asked of another dataset under the same cache id
+                elif alter == 'what':
+                    new[5] = base[5] + 1
+                elif alter == 'nobroadcast':
+                    new[7] = False
+                op = new
             if len(datasets) < 1:
                 continue
             reqs.append(list(op))
